@@ -18,6 +18,7 @@ import Driver.FX
 import Driver.FA
 import Driver.WI
 import Driver.E2EW
+import Driver.MH
 /-!
 Line-protocol driver: one operation per input line, one observation per output line:
 `<model observation>\t<spec observation>`.  First token selects the component.
@@ -45,6 +46,7 @@ structure All where
   fa : FA.St := {}
   wi : WI.St := {}
   e2ew : E2EW.St := {}
+  mh : MH.St := {}
 
 def stepAll (s : All) (line : String) : All × String :=
   match (line.trimAscii.toString.splitOn " ").filter (· ≠ "") with
@@ -96,6 +98,9 @@ def stepAll (s : All) (line : String) : All × String :=
   | "fx" :: args =>
       let (c, a, b) := FX.step s.fx args
       ({ s with fx := c }, a ++ "\t" ++ b)
+  | "mh" :: args =>
+      let (c, a, b) := MH.step s.mh args
+      ({ s with mh := c }, a ++ "\t" ++ b)
   | "e2ew" :: args =>
       let (c, a, b) := E2EW.step s.e2ew args
       ({ s with e2ew := c }, a ++ "\t" ++ b)
